@@ -22,8 +22,8 @@ P = {
          "Every write path through every derivation chain of up to 2..3 links, page sizes from 1 byte to larger than the container, plain/Arc/optional/sliced bitmaps, histories interleaved with resets; oracle: every byte that changed is dirty in the owning region's bitmap at its own offset.",
          "Containers of 16..24 bytes; chain depth <= 3; raw-pointer writes exempt as documented.", "2/C05"),
  "C06": ("model_checking", "E3-sched + trace enumeration", "trace enumeration of the primitive accesses of every (len, src mod 8, dst mod 8) class per entry point, and controlled-scheduler enumeration of all writer/reader interleavings at primitive-access granularity",
-         "Hook H1 records width and address of every primitive volatile access issued by the byte-copy helper; for all 576 classes x entry points the access sequence is checked (single access of the full width when aligned); all interleavings of a flipping writer and a reader are enumerated and the reader must see old or new.",
-         "One naturally aligned volatile access of <= 8 bytes is a single machine access (LLVM volatile semantics + x86-64 single-copy atomicity); SC interleavings.", "2/C06"),
+         "Hook H1 records width and address of every primitive volatile access issued by the byte-copy helper; for all 576 classes x entry points the access sequence is checked (single access of the full width when aligned); all interleavings of a flipping writer and a reader are enumerated and the reader must see old or new. Ordering clause: src/atomic_integer.rs compiled with loom atomics, message-passing litmus for six integer types x four ordering pairs (acquire/release strength).",
+         "One naturally aligned volatile access of <= 8 bytes is a single machine access (LLVM volatile semantics + x86-64 single-copy atomicity); SC interleavings; a SeqCst access carried out as acquire/release is not detectable by the engines present (DESIGN.md section 5).", "2/C06"),
  "C07": ("exploration", "exhaustive-inputs", "exhaustive enumeration of an extreme-value alphabet over every public entry point, two build profiles, every call under catch_unwind + fault handler + hang watchdog",
          "Every access/query entry point of slices, regions, guest memory, bitmaps and stream helpers x boundary and extreme addresses/lengths/counts x layouts at the bottom and top of the address space; each call under catch_unwind plus a SIGABRT/SIGSEGV/SIGFPE handler that attributes the fault to the call, with a watchdog for calls that do not return, in the overflow-checked and in the release profile.",
          "Alphabet of boundary/extreme values, not all 2^64; program-controlled arguments (types, enlarge amounts, non-power-of-two alignments, array indices) excluded as documented.", "2/C07"),
@@ -117,8 +117,8 @@ def main():
              "kind_free_text": "stateless choice-tree DFS by re-execution with a deviation bound (preemptions / non-default environment answers)"},
             {"name": "E3-sched", "path": "harness/src/sched.rs", "serves_properties": ["C08", "C11", "C06"],
              "kind_free_text": "controlled scheduler over real OS threads; scheduling points at every hooked atomic / lock / swap / volatile access"},
-            {"name": "loom", "path": "harness/loomcheck", "serves_properties": ["C08"],
-             "kind_free_text": "loom 0.7 (C11 memory model) over src/bitmap/backend/atomic_bitmap.rs copied from the tree with loom atomics"},
+            {"name": "loom", "path": "harness/loomcheck", "serves_properties": ["C08", "C06"],
+             "kind_free_text": "loom 0.7 (C11 memory model) over src/bitmap/backend/atomic_bitmap.rs and src/atomic_integer.rs copied from the tree with loom atomics"},
             {"name": "exhaustive-inputs", "path": "harness/src/props", "serves_properties": ["C02", "C07", "C13", "C15", "C18", "C19", "C20"],
              "kind_free_text": "complete enumeration of a stated finite input space against a reference model"},
         ],
